@@ -1,4 +1,5 @@
 import Hms.Core.VM
+import Hms.Core.BcCheck
 /-!
 # Per-instruction facts about `Hms.Core.VM.step`
 
@@ -7,7 +8,7 @@ memory pointer. Everything here is a case analysis of `step`; the lemmas are use
 (limits) and C02 (bytecode checker).
 -/
 namespace HmsProofs.Lemmas.VMStep
-open Hms.Core Hms.Core.Comp Hms.Core.VM
+open Hms.Core Hms.Core.Comp Hms.Core.VM Hms.Core.BcCheck
 
 /-! ## Helpers of the VM -/
 
@@ -85,13 +86,65 @@ theorem runM_eq {α} {s s' : VMState} {m : M α} {r : Except Ctl α} (h : runM s
   simp only at this
   rw [← this]
 
+/-- The call stack after the instruction pointer of the top frame has been incremented. -/
+def advCalls : List Frame → List Frame
+  | f :: rest => { f with ip := f.ip + 1 } :: rest
+  | [] => []
+
+@[simp] theorem advance_calls (s : VMState) : (advance s).calls = advCalls s.calls := by
+  unfold advance advCalls; split <;> simp_all
+
+@[simp] theorem advCalls_length (c : List Frame) : (advCalls c).length = c.length := by
+  unfold advCalls; split <;> simp
+
+theorem runM_def {α} (s : VMState) (m : M α) : runM s m = ((m s.st).1, { s with st := (m s.st).2 }) := rfl
+
 /-- A property of the three kinds of answers of `step`. -/
-def Sat (N : VMState → Prop) (I : Interrupt → VMState → Prop) : StepRes → Prop
+def Sat3 (N : VMState → Prop) (I : Interrupt → VMState → Prop) (P : String → Prop) : StepRes → Prop
   | .next s => N s
   | .intr i s => I i s
-  | .panic _ _ => True
+  | .panic why _ => P why
 
-theorem ctlToRes_sat {N I} (c : Ctl) (s : VMState) (h : ∀ i, I i s) : Sat N I (ctlToRes c s) := by
-  unfold ctlToRes; split <;> simp [Sat, h]
+theorem Sat3.mono {N N' : VMState → Prop} {I I' : Interrupt → VMState → Prop} {P P' : String → Prop} {r : StepRes}
+    (h : Sat3 N I P r) (hN : ∀ s, N s → N' s) (hI : ∀ i s, I i s → I' i s) (hP : ∀ w, P w → P' w) :
+    Sat3 N' I' P' r := by
+  cases r <;> simp_all [Sat3]
+
+/-- The instruction leaves handlers, memory pointer and memory alone. -/
+def Keeps (s s' : VMState) : Prop := s'.handlers = s.handlers ∧ s'.mp = s.mp ∧ s'.mem = s.mem
+
+/-- Not one of the three panics (besides "stack underflow") the checker excludes. -/
+def NoBad (why : String) : Prop :=
+  why ≠ "handler stack underflow" ∧ why ≠ "memory index" ∧ why ≠ "label at run time"
+
+theorem unsupported_ne (w : String) :
+    "unsupported: " ++ w ≠ "stack underflow" ∧ NoBad ("unsupported: " ++ w) := by
+  refine ⟨?_, ?_, ?_, ?_⟩ <;> intro h <;> have := congrArg String.toList h <;> simp at this
+
+/-- What an instruction with `simpleEff i = some (p, q)` does: it needs `p` operands, replaces
+them by `q`, and moves to the next instruction; an interrupt leaves at most `p` operands fewer. -/
+def SimpleSpec (s : VMState) (p q : Nat) : StepRes → Prop :=
+  Sat3 (fun s' => p ≤ s.stack.length ∧ s'.stack.length + p = s.stack.length + q ∧ s'.calls = advCalls s.calls ∧ Keeps s s')
+       (fun _ s' => p ≤ s.stack.length ∧ s.stack.length ≤ s'.stack.length + p ∧ s'.stack.length ≤ s.stack.length
+          ∧ s'.calls = s.calls ∧ Keeps s s')
+       (fun why => (why = "stack underflow" → s.stack.length < p) ∧ NoBad why)
+
+theorem ctlToRes_simple (c : Ctl) (s s' : VMState) (p q : Nat)
+    (h1 : p ≤ s.stack.length) (h2 : s.stack.length ≤ s'.stack.length + p) (h3 : s'.stack.length ≤ s.stack.length)
+    (h4 : s'.calls = s.calls) (h5 : Keeps s s') : SimpleSpec s p q (ctlToRes c s') := by
+  have := unsupported_ne
+  unfold ctlToRes; split <;> simp_all [SimpleSpec, Sat3, NoBad]
+
+set_option maxHeartbeats 2000000 in
+theorem simple_spec (code : Code) (lim : Limits) (s : VMState) (i : RInstr) (sp : Span) (p q : Nat)
+    (h : simpleEff i = some (p, q)) : SimpleSpec s p q (step code lim s i sp) := by
+  cases i <;> simp only [simpleEff, Option.some.injEq, Prod.mk.injEq, reduceCtorEq] at h
+  all_goals obtain ⟨rfl, rfl⟩ := h
+  all_goals rcases hs : s.stack with _ | ⟨a, _ | ⟨b, rest⟩⟩
+  all_goals simp only [step, pop1, binArith, hs, runM_def]
+  all_goals (repeat' split)
+  all_goals try (apply ctlToRes_simple <;> simp_all [Keeps])
+  all_goals try simp_all [SimpleSpec, Sat3, Keeps, NoBad]
+  all_goals try grind
 
 end HmsProofs.Lemmas.VMStep
